@@ -410,7 +410,7 @@ func main() {
 	//     quick: every pair <= 12 x 12 with full lists; of the larger pairs one residue class of rows+cols mod 4
 	//     (chosen by the seed) plus the corners, as hashes ---
 	thorough := run.Tier == "thorough"
-	big := 160
+	big := 128 // rows/cols of the sampled large spheres (memory of one coqc shard grows with the largest case)
 	if !thorough {
 		big = 80
 	}
